@@ -3,17 +3,20 @@ package log
 import "context"
 
 //verif:witness H_C16_lifecycle end
-//verif:bound C16 quick every operation sequence of length 1..3 over {Refresh(valid sync cfg), Refresh(valid async cfg), Refresh(invalid, early failure), Refresh(invalid, late failure after rebinding or in the start phase of an async logger), Destroy, log via tag, write via named handle, register tag, obtain handle, log via a tag served by the configured root logger} on the real package globals, real Refresh/Destroy through the reflect shim; worker scheduled at blocking points
-//verif:bound C16 thorough sequences of length 1..5
+//verif:bound C16 quick every operation sequence of length 1..3 over {Refresh(valid sync or async cfg in one of three routings of the tag: literal on l1, wildcard on l1, wildcard on l1 plus the literal on a second logger), Refresh(invalid, early failure), Refresh(invalid, late failure after rebinding or in the start phase of an async logger), Destroy, log via tag, write via named handle, register tag, obtain handle, log via a tag served by the configured root logger} on the real package globals, real Refresh/Destroy through the reflect shim; worker scheduled at blocking points
+//verif:bound C16 thorough sequences of length 1..4
 //verif:assume C16 after a Refresh that failed late (configured flag set, nothing registered for Destroy) the harness does not judge whether registration is refused; it does judge that logging neither panics nor blocks and that Destroy returns the system to the unconfigured state
 
 type vLife struct {
 	live   bool // a successful Refresh has not been destroyed yet
 	failed bool // a Refresh failed late: configured flag set without a registered configuration
 	async  bool
+	route  int // 0: the tag is listed literally by l1; 1: l1 lists its wildcard; 2: l1 lists the wildcard and l2 the tag itself
 }
 
-func vCfg(async bool, badProperty bool) map[string]string {
+func vCfg(async bool, badProperty bool) map[string]string { return vCfgRoute(async, badProperty, 0) }
+
+func vCfgRoute(async bool, badProperty bool, route int) map[string]string {
 	m := map[string]string{
 		// a configured root logger of the same kind serves the tags nobody lists
 		"appender.a0.type":            "Rec",
@@ -33,6 +36,20 @@ func vCfg(async bool, badProperty bool) map[string]string {
 	} else {
 		m["logger.root.type"] = "Logger"
 		m["logger.l1.type"] = "Logger"
+	}
+	if route > 0 {
+		m["logger.l1.tags"] = "_c16_*"
+	}
+	if route == 2 {
+		// a more specific entry owned by another logger
+		m["appender.a2.type"] = "Rec"
+		m["logger.l2.type"] = m["logger.l1.type"]
+		m["logger.l2.tags"] = "_c16_tag"
+		m["logger.l2.appenderRef.ref"] = "a2"
+		if async {
+			m["logger.l2.bufferSize"] = "100"
+			m["logger.l2.bufferFullPolicy"] = "Block"
+		}
 	}
 	if badProperty {
 		m["enableCaller"] = "not-a-bool"
@@ -55,7 +72,7 @@ func H_C16_lifecycle() {
 	vOpt("preempt", 1)
 	maxLen := 3
 	if vTier() > 0 {
-		maxLen = 5
+		maxLen = 4
 	}
 	savedHandles := loggerMap
 	loggerMap = map[string]*LoggerWrapper{}
@@ -103,13 +120,14 @@ func H_C16_lifecycle() {
 			if i > 0 || true {
 				async = vChoose("opAsync", 2) == 1
 			}
-			err := Refresh(vCfg(async, false))
+			route := vChoose("opRoute", 3)
+			err := Refresh(vCfgRoute(async, false, route))
 			if st.live || st.failed {
 				vAssert(err != nil, "second-refresh-without-destroy-is-rejected")
 			} else {
 				vAssert(err == nil, "valid-refresh-succeeds-when-unconfigured")
 				if err == nil {
-					st.live, st.async = true, async
+					st.live, st.async, st.route = true, async, route
 				}
 			}
 		case 2: // Refresh(invalid): fails before anything is touched
@@ -137,15 +155,24 @@ func H_C16_lifecycle() {
 			vAssert(!p, "destroy-never-panics")
 			st = vLife{}
 		case 5: // log via tag
-			var before int
-			var rec *vRecAppender
+			var before, beforeOther int
+			var rec, other *vRecAppender
 			if st.live {
+				wantName, otherName := "a1", "a2"
+				if st.route == 2 {
+					wantName, otherName = "a2", "a1"
+				}
 				for _, a := range global.appenders {
-					if x := a.(*vRecAppender); x.Name == "a1" {
+					if x := a.(*vRecAppender); x.Name == wantName {
 						rec = x
+					} else if x.Name == otherName {
+						other = x
 					}
 				}
 				before = rec.appends
+				if other != nil {
+					beforeOther = other.appends
+				}
 			}
 			nsink := len(sink.writes)
 			lvl := vInt32("level") // arbitrary level code; every configured range here is [NONE,MAX)
@@ -162,6 +189,7 @@ func H_C16_lifecycle() {
 			if st.live && !st.async {
 				if enabled {
 					vAssert(rec.appends == before+1 && len(sink.writes) == nsink, "configured-logging-routes-as-configured")
+					vAssert(other == nil || other.appends == beforeOther, "configured-logging-reaches-no-other-logger")
 				} else {
 					vAssert(rec.appends == before && len(sink.writes) == nsink, "disabled-level-emits-nothing")
 				}
@@ -185,6 +213,68 @@ func H_C16_lifecycle() {
 			}
 			nExtra++
 		}
+	}
+	vReach("end")
+}
+
+//verif:witness H_C16_reconfigure end
+//verif:bound C16 all reconfiguration: Refresh(X), log, Destroy, Refresh(Y), log via tag / via a root-served tag / via the handle, Destroy, for every pair X, Y of the six valid configurations (sync or async x three routings of the tag); after the second Refresh everything routes as Y says, nothing of X survives
+func H_C16_reconfigure() {
+	vOpt("loop", 400)
+	vOpt("preempt", 1)
+	savedHandles := loggerMap
+	loggerMap = map[string]*LoggerWrapper{}
+	savedOut := Stdout
+	sink := &vSink{}
+	Stdout = sink
+	tag := RegisterTag("_c16_tag")
+	h := GetLogger("l1")
+	defer func() {
+		Destroy()
+		Stdout = savedOut
+		loggerMap = savedHandles
+		delete(tagRegistry, "_c16_tag")
+		tag.logger, TagAppDef.logger, TagBizDef.logger = nil, nil, nil
+		global.init = false
+	}()
+	for round := 0; round < 2; round++ {
+		async := vChoose("async", 2) == 1
+		route := vChoose("route", 3)
+		err := Refresh(vCfgRoute(async, false, route))
+		vAssert(err == nil, "valid-refresh-succeeds-when-unconfigured")
+		if err != nil {
+			return
+		}
+		apps := map[string]*vRecAppender{}
+		for _, a := range global.appenders {
+			x := a.(*vRecAppender)
+			apps[x.Name] = x
+		}
+		vAssert(len(global.appenders) == 2+route/2 && len(global.loggers) == 2+route/2, "only-the-current-configuration-is-live")
+		Info(context.Background(), tag, Msg("t"))
+		Warn(context.Background(), TagAppDef, Msg("r"))
+		h.Write([]byte("raw\n"))
+		vAssert(!vNoPanic(Destroy), "destroy-never-panics") // stops (and so flushes) async loggers
+		wantTag := "a1"
+		if route == 2 {
+			wantTag = "a2"
+		}
+		for name, x := range apps {
+			wantEvents, wantRaw := 0, 0
+			if name == wantTag {
+				wantEvents++
+			}
+			if name == "a0" {
+				wantEvents++ // the configured root logger serves the tags nobody lists
+			}
+			if name == "a1" {
+				wantRaw = 1 // the handle 'l1'
+			}
+			vAssert(x.appends == wantEvents, "tag-routes-as-the-live-configuration-says")
+			vAssert(x.writes == wantRaw, "handle-writes-to-the-logger-of-its-name")
+			vAssert(x.started == 1 && x.stopped == 1, "appenders-started-and-stopped-once-per-cycle")
+		}
+		vAssert(len(sink.writes) == 0, "nothing-falls-through-to-the-built-in-logger-while-configured")
 	}
 	vReach("end")
 }
